@@ -17,7 +17,7 @@ type (
 	Location   = time.Location
 	ParseError = time.ParseError
 	Timer      = vsched.Timer
-	Ticker     = time.Ticker
+	Ticker     = vsched.Ticker
 )
 
 const (
@@ -99,5 +99,5 @@ func NewTimer(d Duration) *Timer            { return vsched.NewTimer(d) }
 
 // Tick and NewTicker are not virtualised (not used by the instrumented files today); they fall
 // through to the real clock.
-func Tick(d Duration) <-chan Time  { return time.Tick(d) }
-func NewTicker(d Duration) *Ticker { return time.NewTicker(d) }
+func Tick(d Duration) <-chan Time  { return vsched.Tick(d) }
+func NewTicker(d Duration) *Ticker { return vsched.NewTicker(d) }
